@@ -753,6 +753,11 @@ def explicit(tier, seed):
             yield {"ops": [full, ["evict"], full2, full2,
                            ["adv", 5000, "s"], ["resume", 2, {}],
                            ["resume", 1, {}]]}
+            # ... also for the entries that were the oldest when it wrapped
+            yield {"ops": [full, ["evict"], ["adv", 1001, "both"],
+                           ["resume", 0, {}]]}
+            yield {"ops": [full, full2, ["evict"], ["adv", 5000, "s"],
+                           ["resume", 1, {}], ["resume", 0, {}]]}
             yield {"ops": [full, ["resume", 0, {"ems": False}]]}
             yield {"ops": [full, ["resume", 0, {"etm": False}]]}
             yield {"ops": [full, ["resume", 0, {"s_ciphers": ["aes128"]}]]}
